@@ -407,6 +407,7 @@ impl World {
 			return false;
 		}
 		let removed = self.chain.reorg(depth, readmit);
+		self.oracle.last_fee.clear();
 		self.out.bump(&format!("fault:reorg_depth_{}", depth.min(7)));
 		if !removed.is_empty() {
 			self.out.bump("probe:reorg_removed_transactions");
